@@ -86,7 +86,7 @@ func (m *Machine) invoke(th *Thread, fr *Frame, f FuncV, args []Value, dst ssa.V
 	if s, ok := m.stubFns[name]; ok && fr.fn != s {
 		f = FuncV{fn: s}
 		name = m.fnName(s)
-	} else if in, ok := m.intr[name]; ok && !m.declined(in, th, fr, f, args) {
+	} else if in, ok := m.intr[name]; ok && !(m.H.Opts["reallogger"] == "on" && name == kitMod+"/logger.NewLogger") && !m.declined(in, th, fr, f, args) {
 		res, st := m.lastIntrRes, m.lastIntrSt
 		switch st {
 		case invYield:
